@@ -86,7 +86,8 @@ func VP_C14_Fields() {
 		long += "z"
 	}
 	long += "\nlast line"
-	free := zzvp.Str("fm", 1+zzvp.Choose(zzvp.Param("msglen", 2)), "!-~")
+	// a short free message that may begin and end with blanks (log must not trim it)
+	free := zzvp.Str("fm", 1+zzvp.Choose(zzvp.Param("msglen", 2)), " -~")
 	msgs := []string{long, free, "third"}
 	if zzvp.Choose(2) == 1 {
 		msgs = []string{free, long, "third"}
